@@ -21,7 +21,7 @@ from ..engine import Finding, with_timeout, Timeout
 
 ID = 'C05'
 TITLE = 'Calendar business-day arithmetic agrees with day-by-day counting'
-LEAN_FILES = ['Basic', 'Civil', 'Calendar', 'CalendarDriver', 'CalendarLemmas', 'CivilLemmas', 'CivilGreg', 'C05']
+LEAN_FILES = ['Basic', 'Civil', 'Calendar', 'CalendarDriver', 'CalendarLemmas', 'CalendarEdge', 'CalendarObj', 'CivilLemmas', 'CivilGreg', 'C05']
 RULE = ('distinct protocol lines (is_bday/is_holiday/adjust/add/bdays/drange/registry call on a generated calendar) on which '
         'the implementation returned a value; `new` lines and the ymd self-test are not counted')
 TRUSTED = ['correspondence harness (pv.engine, pv.proto) and generators of pv.props.c05',
